@@ -354,8 +354,20 @@ def run_check(
         return sig, None, last
 
     sigs = sorted(by_sig)
-    to_confirm = sigs[:MAX_CONFIRM]
-    skipped = sigs[MAX_CONFIRM:]
+    # every signature that no open known finding matches is replayed (up to MAX_CONFIRM); of the
+    # signatures matching a known finding at most two per finding are replayed
+    new_sigs = [s_ for s_ in sigs if match_known(cid, s_, known) is None]
+    per_entry: dict[int, int] = {}
+    known_sigs = []
+    for s_ in sigs:
+        k_ = match_known(cid, s_, known)
+        if k_ is not None:
+            per_entry[id(k_)] = per_entry.get(id(k_), 0) + 1
+            if per_entry[id(k_)] <= 2:
+                known_sigs.append(s_)
+    to_confirm = new_sigs[:MAX_CONFIRM] + known_sigs
+    skipped = new_sigs[MAX_CONFIRM:]
+    printed_entries: set[int] = set()
     if to_confirm:
         from concurrent.futures import ThreadPoolExecutor
 
@@ -368,10 +380,14 @@ def run_check(
                 confirmed[sig] = path
                 k = match_known(cid, sig, known)
                 if k is not None:
-                    # known findings keep no replay file around
-                    line = f"KNOWN-FINDING: property={cid} {k.get('what', sig)} [signature={sig}; {sig_count[sig]} path(s)/obligation(s)]"
-                    known_printed.append(line)
-                    lines.append(line)
+                    # known findings keep no replay file around; one line per finding
+                    if id(k) not in printed_entries:
+                        printed_entries.add(id(k))
+                        matching = [s_ for s_ in sigs if match_known(cid, s_, known) is k]
+                        n_occ = sum(sig_count[s_] for s_ in matching)
+                        line = f"KNOWN-FINDING: property={cid} {k.get('what', sig)} [replayed signature={sig}; {len(matching)} matching signature(s), {n_occ} path(s)/obligation(s)]"
+                        known_printed.append(line)
+                        lines.append(line)
                     try:
                         os.remove(path)
                     except OSError:
